@@ -2,10 +2,11 @@
    bool, list, option, prod, unit, sumbool map to OCaml's; nat, Z, positive, string stay
    the extracted inductives; no Extract Constant / Extract Inductive of our own). *)
 From Coq Require Import Extraction ExtrOcamlBasic.
-From DX Require Import Base TreeReduce Repart RepartProofs Shuffle LRU Pred Graph Plan Fusion PlanMeasure.
+From DX Require Import Base TreeReduce Repart RepartProofs Shuffle LRU Pred Graph Plan Fusion PlanMeasure DNF Divisions.
 Extraction "model.ml" Z.add Z.compare tree_layer part_all
   repart_plan clean_boundaries fewer_ranges more_nsplits more_layer valid_divs plan_ok
   task_or_simple simple_layer task_layer digit insert_digit
   rewrite_filters contains getitem setitem wf_check
   rule_name rule_ok den schema
-  fused_task valid_group self_fresh rule_ok_strict mu mu_ltb.
+  fused_task valid_group self_fresh rule_ok_strict mu mu_ltb
+  extract arrow_keep pandas_keep partitions_divisions fused_divisions fusion_buckets truthfulb.
